@@ -402,3 +402,9 @@ def path_effect(path_done, q):
             raise ModelError(f'{q}: statement outside the modelled subset: {cz(st)[:80]}')
         raise ModelError(f'{q}: statement outside the modelled subset: {cz(st)[:80]}')
     return dict(sum_delta=sum_delta, size_delta=size_delta, size_grows=grows, max_updated=max_updated, trace=trace)
+
+
+def thorough(rep, repo):
+    """Thorough tier: the quick rules plus checker self-validation on the C08 slice of the mutation corpus."""
+    from kvstatic import thorough as thorough_mod
+    thorough_mod.selftest_slice(rep, repo, 'C08')
